@@ -12,8 +12,11 @@ Judge(o) ==
      (IF o.stdout = RenderCall(<<o.callee, o.w>>) THEN <<"agree", "">>
       ELSE <<"fail", o.callee \o " wrote " \o o.stdout \o " where the contract prescribes " \o RenderCall(<<o.callee, o.w>>)>>)
   ELSE IF o.kind = "arity" THEN
-     (IF o.status # ArityStatus THEN <<"fail", "wrong number of arguments did not end the process with status 1">>
-      ELSE IF o.stdout # ArityMessage THEN <<"fail", "wrong number of arguments: message differs or the program ran">>
+     \* "reported instead of running": a non-zero status, something written, none of the program's own output (the test programs
+     \* print bare integers; o.ranlike says whether standard output contains one).  Wording, stream and status value are free.
+     (IF o.status = 0 THEN <<"fail", "wrong number of arguments did not end the process with a non-zero status">>
+      ELSE IF o.stdout = "" /\ o.stderr = "" THEN <<"fail", "wrong number of arguments: nothing was reported">>
+      ELSE IF o.ranlike THEN <<"fail", "wrong number of arguments: the program ran">>
       ELSE <<"agree", "">>)
   ELSE <<"tool", "unknown observation kind">>
 Init == st \in {[i |-> i, status |-> "run"] : i \in 1..Len(Obs)}
